@@ -220,3 +220,8 @@ for _k in ("C03", "C04"):
 STEP_FILES = {"C07": ["Vanilla"], "C08": ["Tbc"], "C09": ["Rc4"], "C11": ["Vanilla", "Tbc", "Wrath"], "C10": ["Wrath"], "C18": ["Rc4", "Matrix"], "C16": ["Pin"], "C03": ["Key"], "C14": ["Key"]}
 for _k, _fs in STEP_FILES.items():
     PROPS[_k]["extra_files"] = PROPS[_k]["extra_files"] + ["proofs/steps/%s.v" % f for f in _fs]
+
+# property-level statements about the bodies translated from the source (props/src/Cxx.v)
+for _k in ("C03", "C07", "C08", "C10", "C14", "C16", "C18"):
+    PROPS[_k]["prop_files"] = list(PROPS[_k]["prop_files"]) + ["props/src/%s.v" % _k]
+
